@@ -321,6 +321,12 @@ pub fn run(desc: &Value, ctx: &Ctx) -> CaseOut {
                 });
                 for id in &unavailable {
                     exp.remove(&format!("check/pack/{id}"));
+                    // the pack's own header cannot be read; what the manifest records for it still is
+                    exp.remove(&format!("pack/{id}/free"));
+                }
+                if let Some(id) = damaged_id {
+                    // (a damaged pack may not open at all: its own header is C05's subject)
+                    exp.remove(&format!("pack/{id}/free"));
                 }
                 let structural = |k: &str| !k.starts_with("check/");
                 let mut diffs = if damage {
